@@ -31,6 +31,29 @@ def docstring_source(ctx):
         empty_ok = unparse(e.test).replace(" ", "") in ("self.xml_source!=''", 'self.xml_source!=""') \
             and isinstance(e.orelse, ast.Constant) and e.orelse.value == ""
         return fn, tpl, e, empty_ok, e.body, {}, None
+    if isinstance(e, ast.Name):
+        # third shape: the local is bound once in each branch of one if/else statement of _wrap_method
+        binds = [b for b in local_assignments(fn).get(e.id, [])]
+        if len(binds) == 2 and all(isinstance(b, ast.Assign) and len(b.targets) == 1 for b in binds) \
+                and isinstance(parent(binds[0]), ast.If) and parent(binds[0]) is parent(binds[1]):
+            st = parent(binds[0])
+            in_body = [b for b in binds if b in st.body]
+            in_else = [b for b in binds if b in st.orelse]
+            if len(in_body) == 1 and len(in_else) == 1:
+                t = unparse(st.test).replace(" ", "")
+                if t in ("self.xml_source!=''", 'self.xml_source!=""', "self.xml_source"):
+                    full, empty = in_body[0], in_else[0]
+                elif t in ("self.xml_source==''", 'self.xml_source==""', "notself.xml_source"):
+                    full, empty = in_else[0], in_body[0]
+                else:
+                    full = empty = None
+                if full is not None:
+                    # what the statement binds besides the slot's local stays inside the statement
+                    temps = {n.id for n in ast.walk(st) if isinstance(n, ast.Name) and isinstance(n.ctx, ast.Store)} - {e.id}
+                    leaked = sorted(n.id for n in walk_no_nested(fn) if isinstance(n, ast.Name) and isinstance(n.ctx, ast.Load)
+                                    and n.id in temps and not any(n is y for y in ast.walk(st)))
+                    empty_ok = isinstance(empty.value, ast.Constant) and empty.value.value == "" and not leaked
+                    return fn, tpl, st, empty_ok, inline_locals(fn, full.value), {}, None
     src = e
     if isinstance(e, ast.Name):
         vs = [st.value for st in walk_no_nested(fn) if isinstance(st, ast.Assign) and len(st.targets) == 1
@@ -197,6 +220,13 @@ def _literal_encoding(ctx, rep, rid, ci, fn, body):
         while isinstance(inner, ast.Call) and isinstance(inner.func, ast.Attribute) and inner.func.attr in ("replace", "translate"):
             inner = inner.func.value
     sub = inner if isinstance(inner, ast.Call) and unparse(inner.func) in ("re.sub", "sub") and len(inner.args) == 3 else None
+    if sub is None and isinstance(inner, ast.Call) and isinstance(inner.func, ast.Attribute) and inner.func.attr == "sub" and len(inner.args) == 2 \
+            and isinstance(inner.func.value, ast.Name):
+        # <compiled pattern>.sub(fn, text) with the pattern compiled once at module (or function) level: the same call
+        defs = [st.value for st in list(h[0].mod.tree.body) + list(walk_no_nested(hf)) if isinstance(st, ast.Assign) and len(st.targets) == 1
+                and isinstance(st.targets[0], ast.Name) and st.targets[0].id == inner.func.value.id]
+        if len(defs) == 1 and isinstance(defs[0], ast.Call) and unparse(defs[0].func) in ("re.compile", "compile") and len(defs[0].args) == 1:
+            sub = ast.Call(func=inner.func, args=[defs[0].args[0]] + list(inner.args), keywords=[])
     src_ok = sub is not None and _is_repr_body(sub.args[2]) and unparse(sub.args[2].value.args[0]) == hp[0]
     rep.add(rid, "docstring literal: starts from repr(text)[1:-1] of the text handed in", src_ok or (inner is not None and _is_repr_body(inner)),
             f"{unparse(inner)[:80] if inner is not None else None}", hloc)
@@ -237,7 +267,7 @@ def _literal_encoding(ctx, rep, rid, ci, fn, body):
             tok_ok, why, hloc)
     # the replacement function: non-x escapes unchanged; x escapes -> %03o below 0x80, \\u%04x otherwise
     rf = sub.args[1]
-    rfn = next((f for f in ast.walk(hf) if isinstance(f, ast.FunctionDef) and isinstance(rf, ast.Name) and f.name == rf.id), None)
+    rfn = next((f for f in list(ast.walk(hf)) + list(h[0].mod.tree.body) if isinstance(f, ast.FunctionDef) and isinstance(rf, ast.Name) and f.name == rf.id), None)
     fmt_ok, detail = False, "replacement is not a local function"
     if rfn is not None:
         consts = [c.value for r in ast.walk(rfn) if isinstance(r, ast.Return) and r.value is not None for c in ast.walk(r.value)
@@ -910,6 +940,22 @@ def rule_docstring_untouched(ctx, rep: Report, rid="Q6"):
         raise AnalysisError(f"{rep.prop}/{rid}: the print() redirect rewrite was not found")
 
 
+def _helper_closure(prog, ci, fn) -> list:
+    """fn and every method of its class it reaches through `self.<h>(...)` calls (helpers of helpers included)."""
+    out, work = [], [fn]
+    while work:
+        f_ = work.pop(0)
+        if any(f_ is g for g in out):
+            continue
+        out.append(f_)
+        for c in ast.walk(f_):
+            if isinstance(c, ast.Call) and isinstance(c.func, ast.Attribute) and unparse(c.func.value) in ("self", ci.name):
+                h = prog.find_method(ci, c.func.attr)
+                if h is not None and h[1].name != "print_if_verbose":
+                    work.append(h[1])
+    return out
+
+
 def rule_filter_polarities(ctx, rep: Report, rid="Q5"):
     """Polarity of the small decisions inside the overload filter and the overload counter - each of them flips the
     documentation of a binding silently when inverted:
@@ -922,8 +968,7 @@ def rule_filter_polarities(ctx, rep: Report, rid="Q5"):
     ff = prog.method("XMLDocParser", "filter_member_defs")
     loc = f"{ci.mod.rel}:{ff.lineno}"
     # (a)
-    scopes = [ff] + [h[1] for c in ast.walk(ff) if isinstance(c, ast.Call) and isinstance(c.func, ast.Attribute) and unparse(c.func.value) == "self"
-                     for h in [prog.find_method(ci, c.func.attr)] if h is not None]
+    scopes = _helper_closure(prog, ci, ff)
     opt_tests = []
     for f_ in scopes:
         for x in ast.walk(f_):
@@ -1033,9 +1078,18 @@ def rule_names_confirmed(ctx, rep: Report, rid="Q5"):
     prog = ctx.prog
     ci = prog.cls("XMLDocParser")
     ff = prog.method("XMLDocParser", "filter_member_defs")
-    scopes = [ff] + [h[1] for c in ast.walk(ff) if isinstance(c, ast.Call) and isinstance(c.func, ast.Attribute) and unparse(c.func.value) == "self"
-                     for h in [prog.find_method(ci, c.func.attr)] if h is not None]
+    scopes = _helper_closure(prog, ci, ff)
     found = 0
+
+    def elim_value(h) -> Optional[bool]:
+        """The truth value of helper h's answer under which filter_member_defs drops the candidate (`if not self.h(..): continue`)."""
+        for i_ in ast.walk(ff):
+            if not isinstance(i_, ast.If) or not any(isinstance(x, ast.Continue) for x in i_.body):
+                continue
+            for t, p_ in _split_facts(i_.test, True):
+                if isinstance(t, ast.Call) and isinstance(t.func, ast.Attribute) and t.func.attr == h.name:
+                    return p_
+        return None
     for f_ in scopes:
         ps = set(func_params(f_))
         for loop in [x for x in ast.walk(f_) if isinstance(x, ast.For)]:
@@ -1071,6 +1125,12 @@ def rule_names_confirmed(ctx, rep: Report, rid="Q5"):
                                     if (isinstance(t.ops[0], ast.Eq) and p_) or (isinstance(t.ops[0], ast.NotEq) and not p_):
                                         c2 = True
                             walk(blk, c2, rest)
+                        return
+                    if isinstance(st, ast.Return) and f_ is not ff:
+                        # a helper answers for the whole candidate: inside the loop only the eliminating answer may be given
+                        ev = elim_value(f_)
+                        if not (isinstance(st.value, ast.Constant) and ev is not None and bool(st.value.value) == ev):
+                            bad.append(st.lineno)
                         return
                     if isinstance(st, (ast.Break, ast.Return, ast.Raise)):
                         return
